@@ -170,6 +170,24 @@ func c16Case(c *Ctx) {
 		if spg.MaxTrials != 200 || spg.MaxFailRate != 1e-9 {
 			c.Violate("retry-budget-defaults", fmt.Sprintf("MaxTrials=%d MaxFailRate=%g at process start, documented 200 and 1e-9", spg.MaxTrials, spg.MaxFailRate), nil)
 		}
+		// 200 attempts and 1e-9 mean: a single-attempt success chance of 0.0984 is the border
+		for _, tc := range []struct {
+			rec    spg.CharRecipe
+			p      string
+			accept bool
+		}{
+			{spg.CharRecipe{Length: 1, AllowChars: "bcdefghi", RequireSets: []string{"a"}}, "1/9", true},
+			{spg.CharRecipe{Length: 1, AllowChars: "bcdefgh", RequireSets: []string{"a"}}, "1/8", true},
+			{spg.CharRecipe{Length: 1, AllowChars: "bcdefghijk", RequireSets: []string{"a"}}, "1/11", false},
+			{spg.CharRecipe{Length: 1, AllowChars: "bcdefghijklm", RequireSets: []string{"a"}}, "1/13", false},
+		} {
+			g := runGen(tc.rec, &tape.Tape{Script: []uint32{0}, AutoExtend: true})
+			c.Exec(1)
+			c.Distinct("nontrivial", "threshold:"+tc.p)
+			if tc.accept != (g.Err == nil && g.Panic == nil) {
+				c.Violate("retry-budget-defaults", fmt.Sprintf("with the documented defaults (200 attempts, failure tolerance 1e-9) a recipe with single-attempt success %s must be %s; Generate gave err=%v", tc.p, map[bool]string{true: "served", false: "refused"}[tc.accept], g.Err), nil)
+			}
+		}
 		if spg.CSNone != "none" || spg.CSFirst != "first" || spg.CSAll != "all" || spg.CSRandom != "random" || spg.CSOne != "one" {
 			c.Violate("scheme-constants", "capitalisation scheme constants differ from the documented words", nil)
 		}
